@@ -28,6 +28,8 @@ def configs(tier):
                     # distinct-rows query is out of reach beyond 3 compositions of S_5 / 2 of S_6 (stated bound)
                     nc = ncalls if (b < n or n <= 4) else (3 if n == 5 else 2)
                     out.append(dict(kind="obs", n=n, b=b, din=din, in1d=(din == 1 and neq == 1), nval=1 + (n % 2), neq=neq, ncalls=nc, x64=False))
+    # the sharding option (tables placed on a device): values and row alignment are unchanged
+    out.append(dict(kind="obs", n=3, b=2, din=2, in1d=False, nval=1, neq=2, ncalls=ncalls, shard=True, x64=False))
     for n in (3, N):
         for b in (1, 2):
             for shape in ("n", "n1"):
@@ -68,12 +70,15 @@ def run(cfg, R):
         def f(key, tin, tval, teq):
             d_ = {}
             for nm, tb in zip(eqnames, teq): d_[nm] = tb       # the user's dict, built in the user's order
-            g = DG.DataGeneratorObservations(key, b, tin, tval, d_)
+            if cfg.get("shard"):
+                g = DG.DataGeneratorObservations(key, b, tin, tval, d_, sharding_device=jax.sharding.SingleDeviceSharding(jax.devices()[0]))
+            else:
+                g = DG.DataGeneratorObservations(key, b, tin, tval, d_)
             outs = []
             for _ in range(ncalls):
                 g, bt = g.get_batch(); outs.append(bt)
             return outs
-        name = f"obs/n{n}/b{b}/in{din}{'-1d' if in1d else ''}/val{nval}/eq{neq}"
+        name = f"obs/n{n}/b{b}/in{din}{'-1d' if in1d else ''}/val{nval}/eq{neq}" + ("/sharding_device" if cfg.get("shard") else "")
         R.note(functions=["jinns.data.DataGeneratorObservations.__post_init__/obs_batch"])
         tr = R.trace(name, f, (key, tin, tval, teq), key="obs:raises", use_stubs=True, missing="example")
         if tr is None: return
